@@ -309,3 +309,15 @@ SCENARIOS["C16"] = SCENARIOS["C16"] + [
                  (2, r"f0=1", "the feed does not receive writes made through the other handle")])
     for k in ("mem", "disk")
 ]
+
+
+# C16: a bucket-level feed over two collections that share their name (in different scopes) ends only when both are gone
+SCENARIOS["C16"] = SCENARIOS["C16"] + [
+    dict(name="bucket-level-feed-over-same-named-collections-drop-%s" % drop, kind=k,
+         setup=["mkcoll c4 via=h0", "mfeed g c1,c4 via=h0", "dropcoll %s via=h0" % drop],
+         threads={}, script=[],
+         observe=["lifestate", "probe %s via=h0" % keep],
+         expect=[(0, r"g=0 afterdone=0", "the bucket-level feed's done channel closed although one of its collections is still there"),
+                 (1, r"g=1", "the bucket-level feed no longer receives the remaining collection's writes")])
+    for k in ("mem", "disk") for drop, keep in (("c4", "c1"), ("c1", "c4"))
+]
